@@ -3,6 +3,6 @@
    N, Z stay the extracted inductive types. *)
 Require Extraction.
 Require Import ExtrOcamlBasic.
-From Verif Require Import Base.Sx Result.ResultModel.
+From Verif Require Import Base.Sx Result.ResultModel Schema.Run.
 Extraction Language OCaml.
-Extraction "model.ml" run_c20.
+Extraction "model.ml" run_c20 run_schema run_f64.
